@@ -37,4 +37,4 @@ def search(ctx, deep):
             "sample": {"program": tl.render_prog(cases[-1])}}, fails
 
 def replay(obj):
-    return oracles.impl_models(obj["text"], obj.get("h", 3))
+    return oracles.replay_record(obj, 3)
